@@ -426,6 +426,9 @@ const IN_CONTENTS: &[&str] = &["1 2\n[3]\n", "\"x\"\n\"y z\"", "a,b\n1,2\n", "k:
 fn input_format_case(i: u64, sample: bool, root: &std::path::Path) -> CaseResult {
     let (ne, no, nc) = (IN_EXTS.len() as u64, IN_OPTS.len() as u64, IN_CONTENTS.len() as u64);
     let (ext, opt, content, slurp, stdin) = (IN_EXTS[(i % ne) as usize], IN_OPTS[((i / ne) % no) as usize], IN_CONTENTS[((i / (ne * no)) % nc) as usize], (i / (ne * no * nc)) % 2 == 1, (i / (ne * no * nc * 2)) % 2 == 1);
+    // the filter either takes the values one by one, or pairs them up with `input` (which polls the
+    // decoder once more after its last value when their number is odd)
+    let pairing = (i / (ne * no * nc * 4)) % 2 == 1;
     let format = match opt {
         [] if stdin => "json",
         [] => match ext {
@@ -465,7 +468,7 @@ fn input_format_case(i: u64, sample: bool, root: &std::path::Path) -> CaseResult
     if slurp {
         args.push("-s".into());
     }
-    args.push(".".into());
+    args.push(if pairing { "[., input]".into() } else { ".".into() });
     if !stdin {
         args.push(name.clone());
     }
@@ -484,6 +487,7 @@ fn input_format_case(i: u64, sample: bool, root: &std::path::Path) -> CaseResult
         }
         Ok(vals) => {
             let vals: Vec<MVal> = if slurp && format != "raw" { vec![MVal::Arr(vals)] } else { vals };
+            let vals: Vec<MVal> = if pairing { vals.chunks(2).map(|c| MVal::Arr(c.to_vec())).collect() } else { vals };
             let want: Vec<u8> = vals.iter().flat_map(|v| OutOpts { compact: true, ..Default::default() }.render(v)).collect();
             if out.status != 0 || out.stdout != want {
                 return Err(CaseFail::new("cli-input-decoder", format!("expected the input to be read as {format}: {:?}; jaq printed {:?} (exit {}, {})", String::from_utf8_lossy(&want), out.out_str().chars().take(300).collect::<String>(), out.status, out.err_str().chars().take(200).collect::<String>()), case));
@@ -620,7 +624,7 @@ pub fn run(mut rep: Report) -> ! {
     rep.set_rule(
         "command lines generated from: 38 filters built around input accounting (input, inputs, first(inputs), folds over inputs), errors and halts after k outputs, halt codes, halt_error, variables ($a, $b, $ARGS.named, $ENV), input_filename; 1-3 input files or standard input with 0-4 values each, a parse error after the k-th value, a missing file; -n, -s, -e; any subset of the output options -c, -r, -j, --raw-output0, --tab, --indent n, -S (except -r with --raw-output0); clustered short options vs long options, options before vs after the filter, `--` before the files. \
          The model computes, from the outputs the library yields for the same filter with a shared per-file input queue, the exact stdout bytes (each output rendered by the library's printer with the layout that the option subset asks for, raw strings and terminators by the documented rules), the exit status (0; -e: 1/4; 2 missing file; 5 run-time and input-parse errors; halt codes modulo 256) and whether stderr must be non-empty. \
-         Input decoder selection: 6 file extensions x 8 input-format option spellings (none, -R, --raw-input, --raw-input0, --from json/raw/yaml/csv) x 7 contents x -s x file/stdin: the input must be read by the decoder the option names, else the one the extension names, else JSON (library decoders give the expected values). Interactive scenarios: stdout and stderr merged into one pipe must show outputs and messages in computation order; conversations over pipes in which each output has to arrive before the next input is sent. \
+         Input decoder selection: 6 file extensions x 8 input-format option spellings (none, -R, --raw-input, --raw-input0, --from json/raw/yaml/csv) x 7 contents x -s x file/stdin x filter `.` / `[., input]` (pairing polls the decoder past its last value): the input must be read by the decoder the option names, else the one the extension names, else JSON (library decoders give the expected values). Interactive scenarios: stdout and stderr merged into one pipe must show outputs and messages in computation order; conversations over pipes in which each output has to arrive before the next input is sent. \
          non-trivial = at least two interacting options, or a filter that consumes inputs / ends early, or an input truncated after at least one value; distinct by (command line, file contents)",
     );
     rep.assume("the output values themselves come from the library run of the same filter (C01 decides those); how a value is printed in a given layout is C07's business - here the library's printer renders the expected bytes");
@@ -631,7 +635,7 @@ pub fn run(mut rep: Report) -> ! {
     rep.random("command-lines", n, 64, move |src| cli_case(src, &root));
     {
         let r = scratch.path.clone();
-        let total = (IN_EXTS.len() * IN_OPTS.len() * IN_CONTENTS.len() * 4) as u64;
+        let total = (IN_EXTS.len() * IN_OPTS.len() * IN_CONTENTS.len() * 8) as u64;
         let stride = if rep.quick() { 3 } else { 1 };
         rep.indexed("input-decoder-selection", total, stride, !rep.quick(), move |i, s| input_format_case(i, s, &r));
     }
